@@ -158,8 +158,13 @@ def standin(rep: Report):
                 bad = f"text {e.get('text')!r} does not begin with source line {e['lineno']} {line!r}"
         if bad:
             site = "bare" if bad.startswith("bare") else ("tokenize-indent" if e.get("filename") == "<tokenize>" else "field")
-            if site == "field" and re.search(r"\((unicode|value) error\)|bytes can only contain ASCII|invalid \w+ literal|leading zeros|invalid character|unterminated string", e.get("msg", "")):
-                site = "literal_eval"        # raised by ast.literal_eval on a token's text: carries the token's own coordinates (known finding)
+            txt = (e.get("text") or "").rstrip("\n")
+            from_literal = bool(re.match(r"[A-Za-z]{0,3}['\"]", txt)) and e.get("lineno") == 1 and txt in c and txt not in [ln.rstrip("\n") for ln in lines]
+            if site == "field" and (re.search(r"\((unicode|value) error\)|bytes can only contain ASCII|invalid \w+ literal|leading zeros|invalid character|unterminated string", e.get("msg", ""))
+                                    or from_literal):
+                # raised by ast.literal_eval on a token's text (recognisable: `text` is exactly a string literal of the source, not a source line, line 1):
+                # carries the token's own coordinates (known finding)
+                site = "literal_eval"
             si.failures.append({"input": c, "site": f"error:{site}", "what": f"{e['cls']}: {bad}", "observed": {"problem": bad, "msg": e.get("msg", "")[:80], "args": [e.get(k) for k in ("filename", "lineno", "offset", "end_lineno", "end_offset")]}})
     si.samples = cases[:3]
     si.seconds = time.time() - t0
